@@ -7,7 +7,7 @@ test -f /opt/veriftools/tla/tla2tools.jar
 /venv/bin/python -c "import hypothesis; print('hypothesis', hypothesis.__version__)"
 mkdir -p .work evidence replays
 cd spec
-for f in OFXText OFXTypes MC_Types TraceBase SecIds MC_SecIds OFXHeader MC_Header OFXSyntax MC_Syntax OFXNet OFXGetConfig MC_GetConfig ProfileCache MC_ProfileCache Purity Trace_Types Trace_Header Trace_Syntax; do
+for f in OFXText OFXTypes MC_Types TraceBase SecIds MC_SecIds OFXHeader MC_Header OFXSyntax MC_Syntax OFXNet OFXGetConfig MC_GetConfig ProfileCache MC_ProfileCache Purity Trace_Types Trace_Header Trace_Syntax OFXSecret MC_Secret OFXHome MC_Home OFXTreeLife MC_TreeLife; do
   java -cp /opt/veriftools/tla/tla2tools.jar:/opt/veriftools/tla/CommunityModules-deps.jar tla2sany.SANY "$f.tla" > ../.work/sany-$f.log 2>&1 || { cat ../.work/sany-$f.log; exit 1; }
 done
 echo setup ok
